@@ -431,6 +431,31 @@ class SimSource(Observable):
         return Disposable(dispose_cold)
 
 
+SUBSCRIBE_DEPTH = [0]
+
+
+class counting_subscribes:
+    """Context manager (harness-side, nothing in /repo): counts Observable.subscribe calls in progress."""
+
+    def __enter__(self):
+        orig = self.orig = Observable.subscribe
+        SUBSCRIBE_DEPTH[0] = 0
+
+        def subscribe(self_, *a, **kw):
+            SUBSCRIBE_DEPTH[0] += 1
+            try:
+                return orig(self_, *a, **kw)
+            finally:
+                SUBSCRIBE_DEPTH[0] -= 1
+
+        Observable.subscribe = subscribe
+        return self
+
+    def __exit__(self, *exc):
+        Observable.subscribe = self.orig
+        SUBSCRIBE_DEPTH[0] = 0
+
+
 class Tap(Observable):
     """Pass-through probe inserted between two operators by the harness."""
 
@@ -493,6 +518,7 @@ class Recorder:
         self.k = 0
         self.after = []  # events recorded after dispose returned / after terminal (filled by checks)
         self.script = None  # (k, fn): call fn() from inside the k-th notification
+        self.raise_on_terminal = False  # the subscriber's own on_error / on_completed callback raises
 
     # subscription management
     def subscribe(self, obs, **kw):
@@ -552,17 +578,27 @@ class Recorder:
                 if c.disp_ret_seq is None and c.terminal() is None and c.sub is not None:
                     c.dispose()
 
+    def _terminal_raise(self):
+        # only while no subscribe() call is in progress anywhere on the stack: a callback that raises while a pipeline (or a
+        # part re-subscribed later by repeat / concat / while_do) is being assembled aborts the assembly half-way, and what was
+        # subscribed by then has no owner - a double fault no statement covers
+        if self.raise_on_terminal and self.sub is not None and SUBSCRIBE_DEPTH[0] == 0:
+            self.w.fired.append((self.w.seq, "subscriber:" + self.name + ":terminal", 0))
+            raise InjectedFault("subscriber:" + self.name + ":terminal")
+
     def on_error(self, e):
         w = self.w
         self.events.append((w.tick(), w.now(), "E", e))
         self._drop_children()
         self._react()
+        self._terminal_raise()
 
     def on_completed(self):
         w = self.w
         self.events.append((w.tick(), w.now(), "C", None))
         self._drop_children()
         self._react()
+        self._terminal_raise()
 
     # views
     def events_kv(self):
